@@ -115,6 +115,22 @@ func C16(run *mon.Run) {
 					})
 				run.Eval(n)
 			}
+			// the key decoded from a receive buffer that the caller overwrites afterwards: its PoP still verifies
+			{
+				buf := append([]byte{}, enc...)
+				if dk, e := crypto.DecodePublicKey(BLS, buf); e == nil {
+					for i := range buf {
+						buf[i] = 0xAA
+					}
+					ok, e2 := crypto.BLSVerifyPOP(dk, encE)
+					copy(buf, keys[(ki+1)%len(keys)].sk.PublicKey().Encode())
+					ok3, e3 := crypto.BLSVerifyPOP(dk, encE)
+					run.Eval(2)
+					if !ok || e2 != nil || !ok3 || e3 != nil {
+						run.Violate("C16:rejects-own-pop:key-decoded-from-reused-buffer", fmt.Sprintf("BLSVerifyPOP under a key decoded from a buffer that was overwritten afterwards = (%v,%v) / (%v,%v)", ok, e2, ok3, e3), map[string]any{"k": key.k.String()})
+					}
+				}
+			}
 			// the same key held in non-affine coordinates, and Encode() must not hand out internal storage
 			jk := jacobianForm(pk, r)
 			if ok, e := crypto.BLSVerifyPOP(jk, encE); !ok || e != nil {
